@@ -72,7 +72,7 @@ def pv_macro(v):
     return sources.pv(v)
 
 
-def gen_programs(ctx, n, big=False, layouts=('canonical', 'random', 'multi', 'macro', 'reentry', 'canonical_multi', 'backjump'), looponly=False):
+def gen_programs(ctx, n, big=False, layouts=('canonical', 'random', 'multi', 'macro', 'reentry', 'canonical_multi', 'backjump', 'oneline'), looponly=False):
     """sources with their typed form; returns list of dicts {defs, main, main_file, files, layout, L}"""
     r = ctx.rnd
     out = []
@@ -89,6 +89,9 @@ def gen_programs(ctx, n, big=False, layouts=('canonical', 'random', 'multi', 'ma
             files = {b'm': text.encode()}
         elif lay == 'random':
             files = {b'm': sources.text_of_tokens(sources.respell(sources.toks(defs, main), r), r).encode()}
+        elif lay == 'oneline':
+            # everything on one line (or very few): all constructs share their line number
+            files = {b'm': sources.text_of_tokens(sources.toks(defs, main), r, r.choice([0.0, 0.0, 0.02])).encode()}
         elif lay == 'multi':
             fl = sources.split_files(sources.respell(sources.toks(defs, main), r), r)
             files = {k.encode(): sources.text_of_tokens(v, r).encode() for k, v in fl.items()}
@@ -190,9 +193,9 @@ def check_C16(ctx):
     if ctx.harness is None:
         return finish(ctx)
     r = ctx.rnd
-    cases = gen_programs(ctx, ctx.n(350, 3500), layouts=('canonical', 'random', 'multi', 'macro'))
+    cases = gen_programs(ctx, ctx.n(350, 3500), layouts=('canonical', 'random', 'multi', 'macro', 'oneline'))
     # sources without WHILE / GOTO, loops that assign their own bound, half of them written through macros that loop over a temporary
-    cases += gen_programs(ctx, ctx.n(250, 2500), layouts=('canonical', 'macro', 'macro'), looponly=True)
+    cases += gen_programs(ctx, ctx.n(250, 2500), layouts=('canonical', 'macro', 'macro', 'oneline', 'random'), looponly=True)
     # attempts at self / forward / mutual reference, across files and redefinitions
     bad = [
         "PROGRAM f IN a DO x0 := RUN f WITH a END END\nx1 := RUN f WITH 1 END\n",
